@@ -241,6 +241,9 @@ def register_harness(res):
 def c18(res):
     refobjects(res)
     register_harness(res)
+    if res.tier == "thorough":
+        import fam_graph
+        fam_graph.example_single_copy(res, clients=(2, 3))
     res.rule = ("(a) reference objects: every (object state reached by a prefix, op, ret) within bounds: invoke / is_valid_step / "
                 "is_valid_history vs RefObjects.tla; (b) RegisterActor clients + record hooks around a chaos server (answers each "
                 "request at most once, any order, any value, or never) on all network kinds: every reachable state of the real "
